@@ -16,6 +16,14 @@ Proof.
   intros [H|H]; auto.
 Qed.
 
+Lemma remove1_In_or : forall k x l, In x l -> k = x \/ In x (remove1 k l).
+Proof.
+  induction l as [|y r IH]; simpl; intros H; [contradiction|].
+  destruct (Nat.eqb_spec k y) as [E|N].
+  - destruct H; [left; congruence | right; auto].
+  - destruct H; [right; left; auto|]. destruct (IH H); auto. right. right. auto.
+Qed.
+
 Lemma remove1_NoDup : forall k l, NoDup l -> NoDup (remove1 k l) /\ ~ In k (remove1 k l).
 Proof.
   induction l as [|y r IH]; simpl; intros H; [split; [constructor|auto]|].
@@ -39,12 +47,15 @@ Record BInv (nS nE : nat) (s : bst) (m : pmon) : Prop := mkBInv {
   v_sesub : forall x, In x (b_se s) -> In x (b_sb s);
   v_senodup : NoDup (b_se s);
   v_barrier : b_barrier s = true -> length (b_se s) = nS;
-  v_written : b_written s = true -> b_barrier s = true /\ b_pending s = [];
+  v_written : b_written s = true -> b_barrier s = true /\ b_pending s = [] /\ b_parsing s = [];
   v_nodup : NoDup (b_pending s);
   v_disj : forall x, In x (b_pending s) -> ~ In x (b_loaded s);
   v_open : b_endOpen s = true -> b_written s = true /\ b_endNext s < nE;
   v_vis : forall x, In x (b_pending s) \/ In x (b_loaded s) -> In x (b_visited s);
-  v_pbar : forall x, In x (b_pending s) -> b_barrier s = true }.
+  v_pbar : forall x, In x (b_pending s) -> b_barrier s = true;
+  v_resolved : pm_resolved m = b_resolved s;
+  v_parl : forall x, In x (b_parsing s) -> In x (b_loaded s) /\ b_barrier s = true;
+  v_allvis : forall x, In x (b_visited s) -> In x (b_pending s) \/ In x (b_loaded s) }.
 
 Lemma binv0 : forall nS nE, BInv nS nE bst0 pmon0.
 Proof.
@@ -80,6 +91,9 @@ Proof.
     eexists. split.
     + simpl. rewrite v_sb0, C1, C2, (ES W). simpl. reflexivity.
     + constructor; simpl; auto; try congruence.
+      all: try solve [intros x Hx; destruct (v_parl0 x Hx); auto].
+      all: try solve [intros x Hx; destruct (v_allvis0 x Hx); auto].
+      all: try solve [intros Hw; destruct (v_written0 Hw) as [? [? ?]]; auto; congruence].
       all: try solve [intros x [E|Hx]; [subst; apply Nat.ltb_lt; auto|auto]].
   - (* start end *)
     destruct (memn i (b_sb s) && negb (memn i (b_se s))) eqn:C; [|discriminate].
@@ -93,6 +107,9 @@ Proof.
     eexists. split.
     + simpl. rewrite v_sb0, v_se0, C1, C2. reflexivity.
     + constructor; simpl; auto; try congruence.
+      all: try solve [intros x Hx; destruct (v_parl0 x Hx); auto].
+      all: try solve [intros x Hx; destruct (v_allvis0 x Hx); auto].
+      all: try solve [intros Hw; destruct (v_written0 Hw) as [? [? ?]]; auto; congruence].
       all: try solve [intros x [E|Hx]; [subst; auto|auto]].
       all: try solve [constructor; auto].
       all: try solve [intros Hw; destruct (v_written0 Hw); congruence].
@@ -100,29 +117,42 @@ Proof.
     destruct (Nat.eqb_spec (length (b_se s)) nS) as [E|N]; [|discriminate].
     inversion H; subst; clear H. exists m. split; auto.
     constructor; simpl; auto.
+      all: try solve [intros x Hx; destruct (v_parl0 x Hx); auto].
+      all: try solve [intros x Hx; destruct (v_allvis0 x Hx); auto].
+      all: try solve [intros Hw; destruct (v_written0 Hw) as [? [? ?]]; auto; congruence].
     all: try solve [intros Hw; destruct (v_written0 Hw); auto].
   - (* visit *)
     destruct (b_barrier s && negb (b_written s)) eqn:C; [|discriminate].
     apply andb_true_iff in C as [C1 C2]. apply negb_true_iff in C2.
     destruct (memn id (b_visited s)) eqn:V; inversion H; subst; clear H; exists m; split; auto.
     + constructor; auto.
+      all: try solve [intros x Hx; destruct (v_parl0 x Hx); auto].
+      all: try solve [intros x Hx; destruct (v_allvis0 x Hx); auto].
+      all: try solve [intros Hw; destruct (v_written0 Hw) as [? [? ?]]; auto; congruence].
     + assert (NV : ~ In id (b_visited s)) by (intros X; apply memn_In in X; congruence).
       constructor; simpl; auto; try congruence.
+      all: try solve [intros x Hx; destruct (v_parl0 x Hx); auto].
+      all: try solve [intros x Hx; destruct (v_allvis0 x Hx); auto].
+      all: try solve [intros Hw; destruct (v_written0 Hw) as [? [? ?]]; auto; congruence].
       all: try solve [constructor; auto; intros X; apply NV; apply v_vis0; auto].
       all: try solve [intros x [E|Hx]; [subst; intros X; apply NV; apply v_vis0; auto | auto]].
       all: try solve [intros x [[E|Hx]|Hx]; auto].
+      all: try solve [intros x [E|Hx]; [auto | destruct (v_allvis0 x Hx); auto]].
   - (* resolve *)
     destruct (b_barrier s && negb (b_written s)) eqn:C; [|discriminate].
     apply andb_true_iff in C as [C1 C2]. apply negb_true_iff in C2.
     inversion H; subst; clear H. exists m. split.
     + simpl. rewrite v_se0, (v_barrier0 C1), Nat.eqb_refl, (ES C2). reflexivity.
     + constructor; auto.
+      all: try solve [intros x Hx; destruct (v_parl0 x Hx); auto].
+      all: try solve [intros x Hx; destruct (v_allvis0 x Hx); auto].
+      all: try solve [intros Hw; destruct (v_written0 Hw) as [? [? ?]]; auto; congruence].
   - (* load *)
     destruct (memn id (b_pending s)) eqn:C; [|discriminate].
     inversion H; subst; clear H.
     assert (Hp : In id (b_pending s)) by (apply memn_In; auto).
     assert (W : b_written s = false).
-    { destruct (b_written s) eqn:E; auto. destruct (v_written0 eq_refl) as [_ P]. rewrite P in Hp. contradiction. }
+    { destruct (b_written s) eqn:E; auto. destruct (v_written0 eq_refl) as [_ [P _]]. rewrite P in Hp. contradiction. }
     pose proof (v_pbar0 id Hp) as B.
     assert (NL : memn id (b_loaded s) = false).
     { destruct (memn id (b_loaded s)) eqn:E; auto. apply memn_In in E. exfalso. eapply v_disj0; eauto. }
@@ -130,18 +160,26 @@ Proof.
     eexists. split.
     + simpl. rewrite v_se0, (v_barrier0 B), Nat.eqb_refl, (ES W), v_loaded0, NL. simpl. reflexivity.
     + constructor; simpl; auto; try congruence.
+      all: try solve [intros x Hx; destruct (v_parl0 x Hx); auto].
+      all: try solve [intros x Hx; destruct (v_allvis0 x Hx); auto].
+      all: try solve [intros Hw; destruct (v_written0 Hw) as [? [? ?]]; auto; congruence].
       all: try solve [intros x Hx [E|Hl]; [rewrite <- E in Hx; exact (R2 Hx) | apply (v_disj0 x); auto; eapply remove1_In; eauto]].
       all: try solve [intros x [Hx|[E|Hx]]; auto; [apply v_vis0; left; eapply remove1_In; eauto | subst; apply v_vis0; auto]].
       all: try solve [intros x Hx; eapply v_pbar0; eapply remove1_In; eauto].
+      all: try solve [intros x [E|Hx]; [subst; split; auto | destruct (v_parl0 x Hx); auto]].
+      all: try solve [intros x Hx; destruct (v_allvis0 x Hx) as [Hq|Hq]; auto; destruct (remove1_In_or id x _ Hq); auto].
   - (* write *)
-    destruct (b_barrier s && negb (b_written s) && match b_pending s with [] => true | _ => false end) eqn:C; [|discriminate].
+    destruct (b_barrier s && negb (b_written s) && match b_pending s with [] => true | _ => false end
+              && match b_parsing s with [] => true | _ => false end) eqn:C; [|discriminate].
     inversion H; subst; clear H.
-    apply andb_true_iff in C as [C C3]. apply andb_true_iff in C as [C1 C2]. apply negb_true_iff in C2.
-    destruct (b_pending s) eqn:P; [|discriminate].
+    apply andb_true_iff in C as [C C4]. apply andb_true_iff in C as [C C3]. apply andb_true_iff in C as [C1 C2].
+    apply negb_true_iff in C2.
+    destruct (b_pending s) eqn:P; [|discriminate]. destruct (b_parsing s) eqn:Pp; [|discriminate].
     exists m. split; auto.
-    constructor; simpl; auto; try (rewrite P; auto; fail).
+    constructor; simpl; auto; try (rewrite P; auto; fail); try (rewrite Pp; auto; fail).
     all: try solve [intros Ho; destruct (v_open0 Ho); congruence].
     all: try solve [rewrite P in *; auto].
+    all: try solve [intros x Hx; contradiction].
   - (* on-end begin *)
     destruct (b_written s && negb (b_endOpen s) && negb (b_endStopped s) && (b_endNext s <? nE)) eqn:C; [|discriminate].
     inversion H; subst; clear H.
@@ -151,6 +189,9 @@ Proof.
     + simpl. rewrite v_se0, (v_barrier0 B), Nat.eqb_refl, v_endOpen0, v_endStopped0, v_endNext0, C2, C3, Nat.eqb_refl, C4.
       simpl. reflexivity.
     + constructor; simpl; auto.
+      all: try solve [intros x Hx; destruct (v_parl0 x Hx); auto].
+      all: try solve [intros x Hx; destruct (v_allvis0 x Hx); auto].
+      all: try solve [intros Hw; destruct (v_written0 Hw) as [? [? ?]]; auto; congruence].
       all: try solve [intros _; split; auto; apply Nat.ltb_lt; auto].
   - (* on-end end *)
     destruct (b_endOpen s) eqn:C; [|discriminate].
@@ -158,6 +199,9 @@ Proof.
     eexists. split.
     + simpl. rewrite v_endOpen0, v_endNext0, Nat.eqb_refl. simpl. reflexivity.
     + constructor; simpl; auto; try congruence.
+      all: try solve [intros x Hx; destruct (v_parl0 x Hx); auto].
+      all: try solve [intros x Hx; destruct (v_allvis0 x Hx); auto].
+      all: try solve [intros Hw; destruct (v_written0 Hw) as [? [? ?]]; auto; congruence].
       all: try discriminate.
       all: try solve [intros _; destruct (v_open0 eq_refl); auto].
   - (* inject: resolve *)
@@ -166,16 +210,44 @@ Proof.
     inversion H; subst; clear H. exists m. split.
     + simpl. rewrite v_se0, (v_barrier0 C1), Nat.eqb_refl, (ES C2). reflexivity.
     + constructor; auto.
+      all: try solve [intros x Hx; destruct (v_parl0 x Hx); auto].
+      all: try solve [intros x Hx; destruct (v_allvis0 x Hx); auto].
+      all: try solve [intros Hw; destruct (v_written0 Hw) as [? [? ?]]; auto; congruence].
   - (* inject: visit *)
     destruct (b_barrier s && negb (b_written s)) eqn:C; [|discriminate].
     apply andb_true_iff in C as [C1 C2]. apply negb_true_iff in C2.
     destruct (memn id (b_visited s)) eqn:V; inversion H; subst; clear H; exists m; split; auto.
     + constructor; auto.
+      all: try solve [intros x Hx; destruct (v_parl0 x Hx); auto].
+      all: try solve [intros x Hx; destruct (v_allvis0 x Hx); auto].
+      all: try solve [intros Hw; destruct (v_written0 Hw) as [? [? ?]]; auto; congruence].
     + assert (NV : ~ In id (b_visited s)) by (intros X; apply memn_In in X; congruence).
       constructor; simpl; auto; try congruence.
+      all: try solve [intros x Hx; destruct (v_parl0 x Hx); auto].
+      all: try solve [intros x Hx; destruct (v_allvis0 x Hx); auto].
+      all: try solve [intros Hw; destruct (v_written0 Hw) as [? [? ?]]; auto; congruence].
       all: try solve [constructor; auto; intros X; apply NV; apply v_vis0; auto].
       all: try solve [intros x [E|Hx]; [subst; intros X; apply NV; apply v_vis0; auto | auto]].
       all: try solve [intros x [[E|Hx]|Hx]; auto].
+      all: try solve [intros x [E|Hx]; [auto | destruct (v_allvis0 x Hx); auto]].
+  - (* resolve the imports of a loaded file *)
+    destruct (memn id (b_parsing s) && negb (memp id key (b_resolved s))) eqn:C; [|discriminate].
+    inversion H; subst; clear H.
+    apply andb_true_iff in C as [C1 C2].
+    assert (Hp : In id (b_parsing s)) by (apply memn_In; auto).
+    destruct (v_parl0 id Hp) as [Hl B].
+    assert (W : b_written s = false).
+    { destruct (b_written s) eqn:E; auto. destruct (v_written0 eq_refl) as [_ [_ P]]. rewrite P in Hp. contradiction. }
+    assert (ML : memn id (b_loaded s) = true) by (apply memn_In; auto).
+    eexists. split.
+    + simpl. rewrite v_se0, (v_barrier0 B), Nat.eqb_refl, (ES W), v_loaded0, ML, v_resolved0, C2. simpl. reflexivity.
+    + constructor; simpl; auto; try congruence.
+  - (* the scan loop receives a parse result *)
+    destruct (memn id (b_parsing s)) eqn:C; [|discriminate].
+    inversion H; subst; clear H. exists m. split; auto.
+    constructor; simpl; auto.
+    + intros Hw. destruct (v_written0 Hw) as [? [? P]]. rewrite P. auto.
+    + intros x Hx. apply v_parl0. eapply remove1_In; eauto.
 Qed.
 
 (* every trace of the build model is accepted by the checker *)
@@ -257,4 +329,93 @@ Proof.
   pose proof (pm_run_loads_nodup nS nE tr pmon0 m' R (NoDup_nil _)) as ND.
   rewrite (pm_run_loaded nS nE tr pmon0 m' R) in ND. simpl in ND. rewrite app_nil_r in ND.
   apply NoDup_rev in ND. rewrite rev_involutive in ND. exact ND.
+Qed.
+
+(* ---- resolver cache: each import of a file is resolved once ---- *)
+Fixpoint resolves (tr : list pevent) : list (nat * nat) :=
+  match tr with
+  | [] => []
+  | PResK i k :: r => (i, k) :: resolves r
+  | _ :: r => resolves r
+  end.
+
+Lemma memp_In : forall a b l, memp a b l = true <-> In (a, b) l.
+Proof.
+  induction l as [|[x y] r IH]; simpl; [split; [discriminate|contradiction]|].
+  rewrite orb_true_iff, IH, andb_true_iff, !Nat.eqb_eq. split.
+  - intros [[E1 E2]|H]; [left; congruence | auto].
+  - intros [E|H]; [left; inversion E; auto | auto].
+Qed.
+
+Lemma pm_run_resolved : forall nS nE tr m m', pm_run nS nE m tr = Some m' ->
+  NoDup (pm_resolved m) -> NoDup (pm_resolved m') /\ pm_resolved m' = rev (resolves tr) ++ pm_resolved m.
+Proof.
+  induction tr as [|e r IH]; intros m m' H ND; simpl in H.
+  - inversion H; subst; auto.
+  - destruct (pm_step nS nE m e) as [m1|] eqn:S; [|discriminate].
+    destruct e; simpl in S;
+      match type of S with (if ?c then _ else _) = _ => destruct c eqn:C; [|discriminate] end;
+      inversion S; subst; clear S; simpl in *;
+      try (destruct (IH _ _ H ND) as [N E]; split; [exact N | exact E]).
+    assert (ND1 : NoDup ((importer, key) :: pm_resolved m)).
+    { constructor; auto. apply andb_true_iff in C as [_ C]. apply negb_true_iff in C.
+      intros X. apply memp_In in X. congruence. }
+    destruct (IH _ _ H ND1) as [N E]. split; auto. simpl in E. rewrite E. rewrite <- app_assoc. reflexivity.
+Qed.
+
+Theorem accepted_resolves_once : forall nS nE tr, build_trace_prefix_ok nS nE tr = true -> NoDup (resolves tr).
+Proof.
+  intros nS nE tr H. unfold build_trace_prefix_ok in H.
+  destruct (pm_run nS nE pmon0 tr) as [m'|] eqn:R; [|discriminate].
+  destruct (pm_run_resolved nS nE tr pmon0 m' R (NoDup_nil _)) as [ND E].
+  rewrite E in ND. simpl in ND. rewrite app_nil_r in ND.
+  apply NoDup_rev in ND. rewrite rev_involutive in ND. exact ND.
+Qed.
+
+(* ---- on-end callbacks come after every load and every resolve ---- *)
+Definition scan_event (e : pevent) : bool :=
+  match e with PRes | PResK _ _ | PLoad _ | PSB _ => true | _ => false end.
+
+Lemma pm_seen_stays : forall nS nE tr m m', pm_run nS nE m tr = Some m' -> pm_endSeen m = true ->
+  forallb (fun e => negb (scan_event e)) tr = true.
+Proof.
+  induction tr as [|e r IH]; intros m m' H Sn; simpl in *; auto.
+  destruct (pm_step nS nE m e) as [m1|] eqn:S; [|discriminate].
+  destruct e; simpl in S; rewrite ?Sn in S; simpl in S; rewrite ?andb_false_r in S; simpl in S; try discriminate;
+    match type of S with (if ?c then _ else _) = _ => destruct c eqn:C; [|discriminate] end;
+    inversion S; subst; clear S; simpl; eapply IH; eauto.
+Qed.
+
+Lemma pm_run_app : forall nS nE a b m, pm_run nS nE m (a ++ b) =
+  match pm_run nS nE m a with Some m' => pm_run nS nE m' b | None => None end.
+Proof. induction a as [|x a IH]; intros b m; simpl; auto. destruct (pm_step nS nE m x); auto. Qed.
+
+Theorem accepted_onend_after_scan : forall nS nE pre i w post,
+  build_trace_prefix_ok nS nE (pre ++ PEB i w :: post) = true ->
+  forallb (fun e => negb (scan_event e)) post = true.
+Proof.
+  intros nS nE pre i w post H. unfold build_trace_prefix_ok in H. rewrite pm_run_app in H.
+  destruct (pm_run nS nE pmon0 pre) as [m1|]; [|discriminate]. cbn [pm_run] in H.
+  destruct (pm_step nS nE m1 (PEB i w)) as [m2|] eqn:S; [|discriminate].
+  destruct (pm_run nS nE m2 post) as [m3|] eqn:R; [|discriminate].
+  eapply pm_seen_stays; eauto.
+  simpl in S. match type of S with (if ?c then _ else _) = _ => destruct c; [|discriminate] end.
+  inversion S; reflexivity.
+Qed.
+
+(* ---- in the model: when the outputs are written every file that was ever
+   visited has been loaded (and loaded once: NoDup), for every schedule ---- *)
+Lemma brun_binv : forall nS nE acts s' tr, brun nS nE bst0 acts = Some (s', tr) ->
+  exists m', BInv nS nE s' m'.
+Proof.
+  intros nS nE acts s' tr H. destruct (brun_sound _ _ _ _ _ _ _ (binv0 nS nE) H) as [m' [_ I]]. eauto.
+Qed.
+
+Theorem all_visited_loaded_at_write : forall nS nE acts s' tr,
+  brun nS nE bst0 acts = Some (s', tr) -> b_written s' = true ->
+  forall x, In x (b_visited s') -> In x (b_loaded s').
+Proof.
+  intros nS nE acts s' tr H W x Hx. destruct (brun_binv _ _ _ _ _ H) as [m' I].
+  destruct (v_written _ _ _ _ I W) as [_ [P _]].
+  destruct (v_allvis _ _ _ _ I x Hx) as [Q|Q]; auto. rewrite P in Q. contradiction.
 Qed.
